@@ -518,6 +518,16 @@ impl Runner {
                 printed += 1;
             }
         }
+        if std::env::var("VERIF_CLASSES").is_ok() {
+            let mut classes: BTreeMap<(String, usize, &'static str), (usize, String)> = BTreeMap::new();
+            for v in &viols {
+                let e = classes.entry((v.op.to_string(), v.bits, v.kind)).or_insert((0, format!("args={} expected={} observed={:?}", trunc(&format!("{:?}", v.args), 200), trunc(&v.expected.to_string(), 200), v.got)));
+                e.0 += 1;
+            }
+            for ((op, bits, kind), (n, ex)) in classes {
+                println!("  CLASS op={op} bits={bits} kind={kind} kept={n} e.g. {}", trunc(&ex, 500));
+            }
+        }
         if total as usize > viols.len() {
             println!("  ({} violating executions in total; {} kept)", total, viols.len());
         }
@@ -578,9 +588,17 @@ impl<'a> Drop for Local<'a> {
             }
         }
         inner.violations.append(&mut self.violations);
-        if inner.violations.len() > 400 {
+        if inner.violations.len() > 4000 {
             inner.violations.sort_by(|a, b| a.order.cmp(&b.order));
-            inner.violations.truncate(200);
+            // keep the earliest, but at least a few of every (op, bits) class
+            let mut seen: BTreeMap<(&'static str, usize), usize> = BTreeMap::new();
+            let mut kept = 0usize;
+            inner.violations.retain(|v| {
+                let c = seen.entry((v.op, v.bits)).or_insert(0);
+                *c += 1;
+                kept += 1;
+                kept <= 1000 || *c <= 3
+            });
         }
     }
 }
@@ -660,7 +678,7 @@ impl<'a> Local<'a> {
             }
         };
         self.nviol += 1;
-        if self.violations.len() < 50 {
+        if self.violations.len() < 50 || self.violations.iter().filter(|v| v.op == op && v.bits == bits).count() < 3 {
             let pm = if matches!(got, V::Panic) { LAST_PANIC.with(|p| p.borrow().clone()) } else { None };
             self.violations.push(Violation {
                 order: (self.uidx, (self.cur_index as u64) << 20 | (self.seq & 0xfffff)),
